@@ -132,6 +132,7 @@ type Ctx struct {
 	facts []string
 	ftags []string
 	fblks []*ssa.BasicBlock
+	nunroll int // turns of unrolled loops executed so far (suffix of reach constants)
 	inlinedLoopOrdinals map[int]bool // loop sections of the contract bound to loops of inlined callees
 	curTag string
 	noVariant []string // non-range loops without a variant
